@@ -138,10 +138,22 @@ const Type* TypedefNameTypeResolver::resolve(const Type* ty)
             auto unqualTy = qualTy->unqualifiedType();
             auto resolvedTy = resolve(unqualTy);
             if (resolvedTy != unqualTy) {
-                qualTy->resetUnqualifiedType(
-                        resolvedTy->kind() == TypeKind::Qualified
-                            ? resolvedTy->asQualifiedType()->unqualifiedType()
-                            : resolvedTy);
+                if (resolvedTy->kind() == TypeKind::Qualified) {
+                    // 6.7.3-5: qualifiers reached through a typedef add to the ones written here.
+                    auto innerQualTy = resolvedTy->asQualifiedType();
+                    const auto innerQuals = innerQualTy->qualifiers();
+                    if (innerQuals.hasConst())
+                        const_cast<QualifiedType*>(qualTy)->qualifyWithConst();
+                    if (innerQuals.hasVolatile())
+                        const_cast<QualifiedType*>(qualTy)->qualifyWithVolatile();
+                    if (innerQuals.hasRestrict())
+                        const_cast<QualifiedType*>(qualTy)->qualifyWithRestrict();
+                    if (innerQuals.hasAtomic())
+                        const_cast<QualifiedType*>(qualTy)->qualifyWithAtomic();
+                    qualTy->resetUnqualifiedType(innerQualTy->unqualifiedType());
+                }
+                else
+                    qualTy->resetUnqualifiedType(resolvedTy);
             }
             break;
         }
